@@ -29,9 +29,10 @@ FS == "FRAME_SIZE_ERROR"
 FC == "FLOW_CONTROL_ERROR"
 
 Sids == {0, 1, 3}
-Pads == {"none", "pad0", "pad3", "toobig", "nopayload"}     \* PADDED flag classes
+Pads == {"none", "pad0", "pad3", "toobig", "edge", "full", "nopayload"}     \* PADDED flag classes; edge: pad length one more than what is left after the
+                                                                             \* fixed prefix (priority fields / promised id), full: exactly what is left (empty body, legal)
 \* payload length of the padding construction around n body bytes
-PadLen(p, n) == CASE p = "none" -> n [] p = "pad0" -> n + 1 [] p = "pad3" -> n + 4 [] p = "toobig" -> 3 [] p = "nopayload" -> 0
+PadLen(p, n) == CASE p = "none" -> n [] p = "pad0" -> n + 1 [] p = "pad3" -> n + 4 [] p = "toobig" -> 3 [] p = "edge" -> n + 1 [] p = "full" -> n + 1 [] p = "nopayload" -> 0
 
 F(t, sid, x) == [t |-> t, sid |-> sid, rbit |-> FALSE] @@ x
 
@@ -77,12 +78,12 @@ Parse(f) ==
   CASE f.t = "DATA" ->
          IF f.sid = 0 THEN ConnErr(PE)
          ELSE IF f.pad = "nopayload" THEN ShortPrefix
-         ELSE IF f.pad = "toobig" THEN ConnErr(PE) ELSE Ok(f)
+         ELSE IF f.pad \in {"toobig", "edge"} THEN ConnErr(PE) ELSE Ok(f)
     [] f.t = "HEADERS" ->
          IF f.sid = 0 THEN ConnErr(PE)
          ELSE IF f.pad = "nopayload" THEN ShortPrefix
          ELSE IF f.prio = "short" THEN ShortPrefix
-         ELSE IF f.pad = "toobig" THEN StreamErr(f.sid, PE) ELSE Ok(f)
+         ELSE IF f.pad \in {"toobig", "edge"} THEN StreamErr(f.sid, PE) ELSE Ok(f)
     [] f.t = "PRIORITY" ->
          IF f.sid = 0 THEN ConnErr(PE) ELSE IF f.len # 5 THEN ConnErr(FS) ELSE Ok(f)
     [] f.t = "RST_STREAM" ->
@@ -96,7 +97,7 @@ Parse(f) ==
          IF f.sid = 0 THEN ConnErr(PE)
          ELSE IF f.pad = "nopayload" THEN ShortPrefix
          ELSE IF f.short THEN ShortPrefix
-         ELSE IF f.pad = "toobig" THEN ConnErr(PE) ELSE Ok(f)
+         ELSE IF f.pad \in {"toobig", "edge"} THEN ConnErr(PE) ELSE Ok(f)
     [] f.t = "PING" ->
          IF f.len # 8 THEN ConnErr(FS) ELSE IF f.sid # 0 THEN ConnErr(PE) ELSE Ok(f)
     [] f.t = "GOAWAY" ->
@@ -123,8 +124,8 @@ NextCont(f, c) == IF Outcome(f, c).r = "ok" /\ f.t \in {"HEADERS", "CONTINUATION
 Defects(f, c) ==
   (IF f.t \in {"DATA", "HEADERS", "PRIORITY", "RST_STREAM", "PUSH_PROMISE", "CONTINUATION"} /\ f.sid = 0 THEN {<<"conn", PE>>} ELSE {})
   \cup (IF f.t \in {"SETTINGS", "PING", "GOAWAY"} /\ f.sid # 0 THEN {<<"conn", PE>>} ELSE {})
-  \cup (IF f.t \in {"DATA", "PUSH_PROMISE"} /\ f.pad = "toobig" THEN {<<"conn", PE>>} ELSE {})              \* 6.1, 6.6
-  \cup (IF f.t = "HEADERS" /\ f.pad = "toobig" THEN {<<"stream", PE>>} ELSE {})                               \* 6.2 (PROTOCOL_ERROR, scope open)
+  \cup (IF f.t \in {"DATA", "PUSH_PROMISE"} /\ f.pad \in {"toobig", "edge"} THEN {<<"conn", PE>>} ELSE {})              \* 6.1, 6.6
+  \cup (IF f.t = "HEADERS" /\ f.pad \in {"toobig", "edge"} THEN {<<"stream", PE>>} ELSE {})                               \* 6.2 (PROTOCOL_ERROR, scope open)
   \cup (IF f.t = "PRIORITY" /\ f.len # 5 THEN {<<"stream", FS>>} ELSE {})                                     \* 6.3
   \cup (IF f.t = "RST_STREAM" /\ f.len # 4 THEN {<<"conn", FS>>} ELSE {})                                     \* 6.4
   \cup (IF f.t = "SETTINGS" /\ ((f.ack /\ f.len > 0) \/ f.len % 6 # 0) THEN {<<"conn", FS>>} ELSE {})         \* 6.5
